@@ -191,7 +191,10 @@ impl Command {
 		};
 		let id = world::with(|w| {
 			let id = w.id();
-			w.push(Ev::HookSpawn { id, rec: Rc::new(rec) });
+			w.push(Ev::HookSpawn {
+				id,
+				rec: Rc::new(rec),
+			});
 			id
 		});
 		let stdin = if matches!(self.stdin, Stdio::Piped) {
@@ -235,7 +238,10 @@ impl ChildStdin {
 	pub async fn write_all(&mut self, data: &[u8]) -> io::Result<()> {
 		let id = self.id;
 		world::with(|w| {
-			w.hook_stdin.entry(id).or_insert_with(Vec::new).extend_from_slice(data);
+			w.hook_stdin
+				.entry(id)
+				.or_insert_with(Vec::new)
+				.extend_from_slice(data);
 		});
 		Ok(())
 	}
@@ -264,7 +270,11 @@ impl Child {
 		let st = if code < 0 { None } else { Some(code) };
 		world::with(|w| {
 			if code != 0 {
-				let key = if code < 0 { "proc.signal".to_string() } else { "proc.exit_nonzero".to_string() };
+				let key = if code < 0 {
+					"proc.signal".to_string()
+				} else {
+					"proc.exit_nonzero".to_string()
+				};
 				w.fired(&key);
 			}
 			w.push(Ev::HookExit { id, code: st });
